@@ -11,8 +11,10 @@ package main
 // attacker-not-mover- when the configured DFPN attacker is not the side to move), solver-panic.
 
 import (
+	"bytes"
 	"context"
 	"encoding/json"
+	"encoding/xml"
 	"fmt"
 	"io"
 	"log"
@@ -45,16 +47,18 @@ type c06job struct {
 	entries  int
 	attacker tak.Color
 	// oracle
-	g       *retroGraph // nil: bounded exhaustive search
-	gi      int
-	hunt    bool
-	modelOK bool        // eligible for the model comparison (cost permitting)
+	g        *retroGraph // nil: bounded exhaustive search
+	gi       int
+	hunt     bool
+	bigModel bool // follow-up run on a root where repetition was seen: larger model budget
+	rep      int  // DFPN: threefold repetitions met by this run
+	modelOK  bool // eligible for the model comparison (cost permitting)
 
 	// results
 	l1, l2 string
-	done  int32
-	out   []string
-	stats map[string]int64
+	done   int32
+	out    []string
+	stats  map[string]int64
 }
 
 func verdictStr(e prove.Evaluation) string {
@@ -107,7 +111,7 @@ func (j *c06job) run() {
 			res = r
 			attacker = j.root.ToMove()
 			l2 = fmt.Sprintf("%d %d %d %d %d %d %d %d %d", r.Proof, r.Disproof, r.Depth, st.Nodes, st.Proved, st.Disproved, st.Dropped, st.Expanded, st.MaxDepth)
-			costOK = st.Expanded <= c06MaxModelExpanded
+			costOK = st.Expanded <= c06MaxModelExpanded || (j.bigModel && st.Expanded <= 20*c06MaxModelExpanded)
 			j.stats["pn_expanded_total"] += int64(st.Expanded)
 		} else {
 			d := prove.NewDFPN(&prove.DFPNConfig{Attacker: j.attacker, TableMem: int64(j.entries) * c06EntrySize})
@@ -118,7 +122,8 @@ func (j *c06job) run() {
 				attacker = j.root.ToMove()
 			}
 			l2 = fmt.Sprintf("%d %d %d %d %d %d %d %d", r.Proof, r.Disproof, st.Work, st.Repetition, st.Terminal, st.Solved, st.Hits, st.Miss)
-			costOK = st.Work <= c06MaxModelWork
+			costOK = st.Work <= c06MaxModelWork || (j.bigModel && st.Work <= 8*c06MaxModelWork)
+			j.rep = int(st.Repetition)
 			j.stats["dfpn_work_total"] += int64(st.Work)
 			if st.Repetition > 0 {
 				j.stats["dfpn_runs_with_repetition"]++
@@ -153,6 +158,10 @@ func (j *c06job) judge(in string, res prove.ProofResult, attacker tak.Color, l1 
 		if attacker != j.root.ToMove() {
 			// own classes: the verdict is then reported from the mover's side (see the C06 finding)
 			class = "attacker-not-mover-" + class
+		}
+		if over, _ := j.root.GameOver(); over {
+			// own classes: the root itself is a finished game
+			class = "finished-root-" + class
 		}
 		j.out = append(j.out, fmt.Sprintf("ORACLE-FAIL %s | %s | %s | %s", class, in, did, want))
 	}
@@ -387,12 +396,14 @@ func runC06(c *ctx) {
 			for x := 0; x < k; x++ {
 				j := c.c06pnJob(root, g)
 				j.modelOK = j.modelOK && model
+				j.gi = i
 				jobs = append(jobs, j)
 			}
 			k = 1 + c.r.Intn(2)
 			for x := 0; x < k; x++ {
 				j := c.c06dfpnJob(root, g)
 				j.modelOK = j.modelOK && model
+				j.gi = i
 				jobs = append(jobs, j)
 			}
 		}
@@ -410,11 +421,29 @@ func runC06(c *ctx) {
 			}
 		}
 		for k := 0; k < s.hunt*c.scale && len(prone) > 0; k++ {
-			j := c.c06dfpnJob(prone[c.r.Intn(len(prone))], g)
-			j.modelOK = false
+			root := prone[c.r.Intn(len(prone))]
+			var j *c06job
+			if k%4 == 3 {
+				j = c.c06pnJob(root, g)
+			} else {
+				j = c.c06dfpnJob(root, g)
+			}
+			j.modelOK = j.modelOK && k%40 == 0
 			j.hunt = true
+			j.gi = i
 			jobs = append(jobs, j)
 			c.stat("hunt_runs", 1)
+		}
+		// finished games as roots: the verdict must be the result of the game
+		for k := 0; k < 30*c.scale && len(g.finished) > 0; k++ {
+			root := g.finished[c.r.Intn(len(g.finished))]
+			jp := c.c06pnJob(root, g)
+			jd := c.c06dfpnJob(root, g)
+			jp.modelOK = jp.modelOK && k < 10
+			jd.modelOK = jd.modelOK && k < 10
+			jp.gi, jd.gi = i, i
+			jobs = append(jobs, jp, jd)
+			c.stat("finished_root_runs", 2)
 		}
 	}
 
@@ -464,6 +493,95 @@ func runC06(c *ctx) {
 		k++
 	}
 	c06runJobs(c, jobs)
+
+	// follow-up: the roots on which a DFPN run met a threefold repetition are searched again by PN and DFPN in
+	// model-comparable configurations, so that the repetition code of both solvers is part of the tie
+	var again []*c06job
+	seen := map[string]bool{}
+	for _, j := range jobs {
+		if j.rep == 0 || j.g == nil || len(seen) >= 6*c.scale {
+			continue
+		}
+		k := retroKey(j.root)
+		if seen[k] {
+			continue
+		}
+		seen[k] = true
+		for _, f := range []*c06job{
+			{kind: "pn", maxNodes: 20000},
+			{kind: "pn", maxNodes: 400, preserve: true},
+			{kind: "pn", maxNodes: 20000, maxDepth: 7},
+			{kind: "dfpn", entries: 1024},
+			{kind: "dfpn", entries: 4},
+		} {
+			f.root, f.g, f.gi, f.modelOK, f.bigModel, f.hunt = j.root, j.g, j.gi, true, true, true
+			again = append(again, f)
+		}
+	}
+	// directed roots (kept from earlier runs): searches that are known to meet threefold repetitions
+	for _, d := range []struct {
+		gi  int
+		tps string
+	}{{2, "x3/x3/x,11S,2 2 3"}, {2, "x,11S,x/x,2,x/x3 2 4"}} {
+		q, err := ptn.ParseTPS(d.tps)
+		if err != nil || specs[d.gi].cfg.Size != q.Size() {
+			continue
+		}
+		p, err := tak.FromSquares(specs[d.gi].cfg, boardOf(q), q.MoveNumber())
+		if err != nil || seen[retroKey(p)] {
+			continue
+		}
+		seen[retroKey(p)] = true
+		for fi, f := range []*c06job{
+			{kind: "pn", maxNodes: 20000},
+			{kind: "pn", maxNodes: 20000, maxDepth: 9},
+			{kind: "dfpn", entries: 1024},
+			{kind: "dfpn", entries: 4},
+			{kind: "pn", maxNodes: 20000, preserve: true},
+		} {
+			f.root, f.g, f.gi, f.modelOK, f.bigModel, f.hunt = p, graphs[d.gi], d.gi, true, true, true
+			if fi == 4 && c.quick() {
+				f.modelOK = false // the second copy of the most expensive model case: thorough only
+			}
+			again = append(again, f)
+		}
+		c.stat("directed_repetition_roots", 1)
+	}
+	// the same for PN: roots on which the PN search itself meets repetitions (found by inspecting the final tree)
+	pnRoots := 0
+	for i, g := range graphs {
+		if specs[i].cfg.Size != 3 || specs[i].hunt == 0 {
+			continue
+		}
+		tried := 0
+		for _, p := range g.sample {
+			if pnRoots >= 2*c.scale || tried >= 3000*c.scale {
+				break
+			}
+			if p.Standing == 0 {
+				continue
+			}
+			tried++
+			if seen[retroKey(p)] {
+				continue
+			}
+			n, exp, _ := c06pnRepLeaves(p, 20000)
+			if n == 0 || exp > 10*c06MaxModelExpanded*2 {
+				continue
+			}
+			pnRoots++
+			for _, f := range []*c06job{
+				{kind: "pn", maxNodes: 20000},
+				{kind: "pn", maxNodes: 20000, preserve: true},
+			} {
+				f.root, f.g, f.gi, f.modelOK, f.bigModel, f.hunt = p, g, i, true, true, true
+				again = append(again, f)
+			}
+		}
+	}
+	c.stat("pn_roots_with_repetition_leaves", int64(pnRoots))
+	c.stat("followup_runs_on_repetition_roots", int64(len(again)))
+	c06runJobs(c, again)
 }
 
 func c06runJobs(c *ctx, jobs []*c06job) {
@@ -694,7 +812,89 @@ func c06single(c *ctx, j *c06job) {
 	}
 }
 
+// c06pnRepLeaves runs PN with PreserveSolved and counts the leaves of the final tree that were evaluated as not won
+// although the game is not over there (depth unlimited): those are the threefold repetitions the search met.
+func c06pnRepLeaves(p *tak.Position, maxNodes uint64) (int, uint64, prove.Evaluation) {
+	pr := prove.New(prove.Config{MaxNodes: maxNodes, PreserveSolved: true})
+	r, st := pr.Prove(context.Background(), p)
+	var buf bytes.Buffer
+	pr.DumpTree(&buf)
+	dec := xml.NewDecoder(&buf)
+	type frame struct {
+		pos      *tak.Position
+		value    string
+		children bool
+	}
+	var stack []frame
+	count := 0
+	for {
+		tok, err := dec.Token()
+		if err != nil {
+			break
+		}
+		switch t := tok.(type) {
+		case xml.StartElement:
+			if t.Name.Local == "Node" {
+				var mv, val string
+				for _, a := range t.Attr {
+					switch a.Name.Local {
+					case "Move":
+						mv = a.Value
+					case "Value":
+						val = a.Value
+					}
+				}
+				var pos *tak.Position
+				if len(stack) == 0 {
+					pos = p
+				} else if par := stack[len(stack)-1].pos; par != nil {
+					if m, e := ptn.ParseMove(mv); e == nil {
+						pos, _ = par.Move(m)
+					}
+				}
+				stack = append(stack, frame{pos: pos, value: val})
+			} else if t.Name.Local == "Children" && len(stack) > 0 {
+				stack[len(stack)-1].children = true
+			}
+		case xml.EndElement:
+			if t.Name.Local == "Node" {
+				f := stack[len(stack)-1]
+				stack = stack[:len(stack)-1]
+				if !f.children && f.value == "disproven" && f.pos != nil {
+					if over, _ := f.pos.GameOver(); !over {
+						count++
+					}
+				}
+			}
+		}
+	}
+	return count, st.Expanded, r.Result
+}
+
 func c06probe(c *ctx) {
+	if c.args[0] == "pnrep" {
+		cfg := tak.Config{Size: 3, Pieces: 3}
+		if len(c.args) > 1 && c.args[1] == "c" {
+			cfg = tak.Config{Size: 3, Pieces: 2, Capstones: 1}
+		}
+		g := buildRetro(tak.New(cfg), 40000000, 37)
+		found := 0
+		tried := 0
+		defer func() { fmt.Fprintf(os.Stderr, "tried %d of %d samples\n", tried, len(g.sample)) }()
+		for k := 0; k < len(g.sample) && found < 15; k++ {
+			p := g.sample[k]
+			if p.Standing == 0 {
+				continue
+			}
+			tried++
+			n, exp, res := c06pnRepLeaves(p, 20000)
+			if n > 0 {
+				found++
+				fmt.Fprintf(os.Stderr, "%s : %d repetition leaves, expanded %d, %s\n", ptn.FormatTPS(p), n, exp, verdictStr(res))
+			}
+		}
+		return
+	}
 	if c.args[0] == "hard" {
 		sz, _ := strconv.Atoi(c.args[1])
 		pc, _ := strconv.Atoi(c.args[2])
